@@ -37,6 +37,8 @@ Progs == {
 Pick(seq) == seq[RandomElement(1..Len(seq))]
 
 ReadProgs == {
+  <<[op |-> "number", s |-> 4], Op("ret") @@ [s |-> 4]>>,
+  <<[op |-> "number", s |-> 4], Sstore(1, 6)>>,
   <<Sstore(1, 9), Op("ret") @@ [s |-> 1]>>,
   <<Op("ret") @@ [s |-> 1]>>,
   <<Op("ret") @@ [s |-> 2]>>,
